@@ -219,15 +219,19 @@ func genIntVals(r *rand.Rand, n int) []uint64 {
 		step = r.Uint64()
 	}
 	zz := genPackVals(r, n) // candidate zig-zag encoded deltas
+	dpos := 1
+	if n > 2 {
+		dpos = []int{1, n - 1, 1 + r.IntN(n-1)}[r.IntN(3)]
+	}
 	for i := 1; i < n; i++ {
 		var d uint64
 		switch mode {
 		case 0, 1: // arithmetic progression: RLE
 			d = step
-		case 2: // progression with one disruptor
+		case 2: // progression with one disruptor (first, last or a random delta)
 			d = step
-			if i == 1+int(step%uint64(n)) && r.IntN(2) == 0 {
-				d = step + 1
+			if i == dpos {
+				d = step + 1 + uint64(r.IntN(3))
 			}
 		case 3, 4, 5, 6: // deltas whose zig-zag values exercise simple8b selectors / runs of 1s (delta = -1)
 			d = unzig(zz[i])
@@ -272,15 +276,22 @@ func genTimeVals(r *rand.Rand, n int) []uint64 {
 	scale := pow10[r.IntN(len(pow10))]
 	step := uint64(1+r.IntN(20)) * scale
 	zz := genPackVals(r, n)
+	dpos := 1
+	if n > 2 {
+		dpos = []int{1, n - 1, 1 + r.IntN(n-1)}[r.IntN(3)]
+	}
 	for i := 1; i < n; i++ {
 		var d uint64
 		switch mode {
 		case 0, 1: // regular interval: RLE
 			d = step
-		case 2: // regular with one disruptor
+		case 2: // regular with one disruptor (first, last or a random delta) that is less divisible
 			d = step
-			if i == 1+int(step%uint64(n)) {
-				d = step + pow10[r.IntN(len(pow10))]
+			if i == dpos {
+				d = step + uint64(1+r.IntN(9))*pow10[r.IntN(len(pow10))]
+				if scale > 1 && r.IntN(2) == 0 {
+					d = step + scale/10*uint64(1+r.IntN(9))
+				}
 			}
 		case 3, 4, 5: // scaled deltas exercising simple8b selectors and runs of 1s after division
 			d = zz[i] * scale
@@ -348,6 +359,11 @@ func fixedInt() []jcase {
 		mk(kind, []uint64{0, 1000000000000, 3000000000000, 3000000000000}) // divisor 1e12
 		mk(kind, []uint64{0, 10000000000000, 30000000000000, 70000000000000})
 		mk(kind, []uint64{7, 7, 7, 7, 7})
+		mk(kind, []uint64{0, 1500, 2500, 3500, 4500})       // only the FIRST delta limits the divisor
+		mk(kind, []uint64{0, 1000, 2000, 3000, 4500})       // only the LAST delta limits the divisor
+		mk(kind, []uint64{0, 1000, 2000, 3010, 4010, 5010}) // a middle delta limits the divisor
+		mk(kind, []uint64{5, 6, 8, 9, 10, 11})              // first delta differs (no RLE)
+		mk(kind, []uint64{5, 6, 7, 8, 9, 11})               // last delta differs (no RLE)
 	}
 	// long runs: 250 timestamps 1s apart with one late disruptor (runs of 1s after division)
 	for _, n := range []int{122, 242, 250, 490} {
